@@ -72,6 +72,7 @@ def run(rep: core.Report):
     _r17h(rep)
     _r17i(rep)
     _r17k(rep)
+    _r17l(rep)
     from rules import shared_bcast
 
     shared_bcast.run(rep, "R17j", sorted(core.python_files("phonopy/interface")))
@@ -890,6 +891,102 @@ def _r17k(rep):
                      f"the lattice built from (a, b, c, alpha, beta, gamma) has {names[k].split('=')[0].strip()} = {sp.simplify(G[k[0]][k[1]])}: it is not a rigid rotation of the cell it was built from (alpha and beta exchanged shows only when they differ: b-unique monoclinic, triclinic), so the structure written for LAMMPS is another crystal and the forces are rotated back by a non-orthogonal matrix", line=fn.lineno)
     upper = [ret[0][1], ret[0][2], ret[1][2]]
     rep.instance("R17k", CELLS_, "get_cell_matrix", "lower-triangular orientation (a along x, b in the xy plane)", all(sp.simplify(x) == 0 for x in upper), "the returned lattice is not lower triangular", line=fn.lineno)
+
+
+
+def _r17l(rep):
+    """SIESTA species table: the index a label maps to and the index the atomic numbers are keyed by are the same column."""
+    SI = "phonopy/interface/siesta.py"
+    rep.rule("R17l", "SIESTA ChemicalSpeciesLabel block: both tables built from it use the declared species index (first column): atomic numbers are keyed by it and labels map to it, so that atomicnumbers[label map[label]] is the element of that label whatever the order of the lines; a line counter is not the declared index", 2)
+    fn = core.find_def(SI, "SiestaIn._collect")
+
+    def prov(e, env, depth=0):
+        """('col', k): column k of a split line; ('enum',): position of the line; None: cannot tell"""
+        if depth > 8:
+            return None
+        if isinstance(e, ast.Call) and core.src(e.func) in ("int", "float", "str") and e.args:
+            return prov(e.args[0], env, depth + 1)
+        if isinstance(e, ast.Name):
+            return env.get(e.id)
+        if isinstance(e, ast.Subscript) and isinstance(e.slice, ast.Constant) and isinstance(e.slice.value, int):
+            b = prov(e.value, env, depth + 1)
+            if b == ("line",):
+                return ("col", e.slice.value)
+            if isinstance(b, tuple) and b and b[0] == "cols":
+                return ("col", b[1] + e.slice.value)
+            return None
+        if isinstance(e, ast.Subscript) and isinstance(e.slice, ast.Slice):
+            b = prov(e.value, env, depth + 1)
+            lo = e.slice.lower.value if isinstance(e.slice.lower, ast.Constant) else 0
+            return ("cols", lo) if b == ("line",) else None
+        if isinstance(e, ast.Call) and isinstance(e.func, ast.Attribute) and e.func.attr == "split":
+            b = prov(e.func.value, env, depth + 1)
+            return ("line",) if b in (("raw",), ("line",)) else None
+        return None
+
+    def pairs(v, env):
+        """(key provenance, value provenance) of a dict construction over the lines of the block"""
+        if isinstance(v, ast.DictComp) and len(v.generators) == 1:
+            g = v.generators[0]
+            env2 = dict(env)
+            it = g.iter
+            if isinstance(it, ast.Call) and core.src(it.func) == "enumerate" and isinstance(g.target, ast.Tuple) and len(g.target.elts) == 2:
+                env2[g.target.elts[0].id] = ("enum",)
+                env2[g.target.elts[1].id] = elem_of(it.args[0], env)
+            elif isinstance(g.target, ast.Name):
+                env2[g.target.id] = elem_of(it, env)
+            return prov(v.key, env2), prov(v.value, env2)
+        if isinstance(v, ast.Call) and core.src(v.func) == "dict" and v.args and isinstance(v.args[0], ast.ListComp) and len(v.args[0].generators) == 1:
+            lc = v.args[0]
+            g = lc.generators[0]
+            env2 = dict(env)
+            if isinstance(g.target, ast.Name):
+                env2[g.target.id] = elem_of(g.iter, env)
+            el = lc.elt
+            if isinstance(el, ast.Call) and isinstance(el.func, ast.Lambda) and len(el.args) == 1 and len(el.func.args.args) == 1:
+                env2[el.func.args.args[0].arg] = prov(el.args[0], env2)
+                el = el.func.body
+            if isinstance(el, ast.Tuple) and len(el.elts) == 2:
+                return prov(el.elts[0], env2), prov(el.elts[1], env2)
+            if isinstance(el, ast.Call) and core.src(el.func) == "map" and len(el.args) == 2:
+                b = prov(el.args[1], env2)
+                if isinstance(b, tuple) and b[0] == "cols":
+                    return ("col", b[1]), ("col", b[1] + 1)
+        return None, None
+
+    def elem_of(it, env):
+        """what one element of the iterated sequence is"""
+        if isinstance(it, ast.Name):
+            d = env.get(it.id)
+            return {("rawlines",): ("raw",), ("lines",): ("line",)}.get(d)
+        return None
+
+    found = {}
+    for node in ast.walk(fn):
+        if isinstance(node, ast.If) and "chemicalspecieslabel" in core.src(node.test):
+            env = {}
+            for st in node.body:
+                if not isinstance(st, ast.Assign) or len(st.targets) != 1:
+                    continue
+                t, v = st.targets[0], st.value
+                if isinstance(t, ast.Name):
+                    txt = core.src(v).replace(" ", "")
+                    if isinstance(v, ast.ListComp) and ".split()" in txt and "split(" in txt:
+                        env[t.id] = ("lines",)  # [line.split() for line in block.split('\n')...]
+                    elif ".split(" in txt:
+                        env[t.id] = ("rawlines",)
+                elif isinstance(t, ast.Subscript):
+                    key = core.src(t.slice).strip("'\"")
+                    found["atomicnumbers" if key == "atomicnumbers" else "labels"] = (pairs(v, env), st)
+    if set(found) != {"atomicnumbers", "labels"}:
+        raise AnalysisError(f"SiestaIn._collect: the two tables of the ChemicalSpeciesLabel block were not both found ({sorted(found)})")
+    (ak, av), a_st = found["atomicnumbers"]
+    (lk, lv), l_st = found["labels"]
+    if None in (ak, av, lk, lv):
+        raise AnalysisError(f"SiestaIn._collect: cannot tell which columns the species tables are built from ({ak}, {av}, {lk}, {lv})")
+    rep.instance("R17l", SI, "SiestaIn._collect", f"atomic numbers: key {ak} -> value {av}", ak == ("col", 0) and av == ("col", 1), "the atomic numbers are not keyed by the declared species index (column 1) with the atomic number (column 2) as value", line=a_st.lineno)
+    rep.instance("R17l", SI, "SiestaIn._collect", f"labels: key {lk} -> value {lv}", lk == ("col", 2) and lv == ak,
+                 f"a species label maps to {lv} while the atomic numbers are keyed by {ak}: when the lines of the block are not listed in index order (SIESTA allows '2 8 O' before '1 14 Si') every file phonopy writes carries species numbers that mean the other element", line=l_st.lineno)
 
 
 def selftest():
